@@ -1,4 +1,5 @@
 """C02: stop leaves no survivor and no zombie, and stopped stays stopped."""
+SPEC_PROFILE = 'lifecycle'
 FUNCTIONS = [
     'circus.watcher:Watcher._stop',
     'circus.watcher:Watcher.kill_processes',
@@ -6,9 +7,13 @@ FUNCTIONS = [
     'circus.watcher:Watcher.reap_processes',
     'circus.watcher:Watcher.reap_process',
     'circus.watcher:Watcher.is_stopped',
+    # Process.stop: what a reaped / removed worker still receives (SIGTERM to its own pid only if alive; pipes closed)
+    'circus.process:Process.stop',
+    'circus.process:Process.is_alive',
     # stopped stays stopped: the periodic check and spawn do nothing on a stopped watcher
     'circus.watcher:Watcher.manage_processes',
     'circus.watcher:Watcher.spawn_process',
+    'circus.watcher:Watcher.do_action',      # what a `set` request triggers
     # arbiter level: every watcher is stopped by stop / rm (unless nostop)
     'circus.arbiter:Arbiter._stop_watchers',
     'circus.arbiter:Arbiter.stop',
@@ -19,7 +24,12 @@ EXCLUDE_CLAUSES = ['post[accounted]:Watcher.spawn_process',
                    # C09's clause on the shared contract of manage_processes (known finding F-13 there)
                    'post[dead-removed-are-reaped]:Watcher.manage_processes']
 LEMMAS = []
-FRAMES = []
+FRAMES = [
+    {'name': 'pid-property-definition', 'kind': 'body_is', 'function': 'circus.process:Process.pid',
+     'body': 'return self._worker.pid', 'decorators': ['property'],
+     'what': 'Process.pid (a model field in the contracts) is the property `return self._worker.pid`: justifies the entry '
+             'assumption A-WORKERPID of the Process wrappers'},
+]
 ASSUMPTIONS = ['A-PY', 'A-REAL', 'A-1THREAD', 'T-KERNEL waitpid / wait-status layout', 'T-PSUTIL', 'A-PIDREUSE',
                'A-HOOKPURE', 'A-ZMQSEND', 'A-STREAMS', 'R-EXCL (protected fields stable while the slot is owned)',
                'A-ATOMIC-COMP (get_active_processes)', 'A-PARSTABLE (parallel-for rule for gen.multi)',
